@@ -17,7 +17,8 @@ CLAIMED = {
         design_ref="DESIGN.md 3 C01, 8",
         note=("Trusted: llsym's IR semantics (validated against the native build on every run), the "
               "moduli/representation table in props/fields.py, abstract partial products as a sound "
-              "over-approximation. Montgomery squarings and gfgen multiplication are deferred (listed in evidence)."),
+              "over-approximation. Montgomery squarings and a few multiplications have no symbolic certificate within budget "
+              "(listed in evidence); for those a native closed-case corpus of limb patterns is replayed and reported as ground facts."),
     ),
     "C03": dict(
         engine="polyid",
@@ -210,7 +211,7 @@ CLAIMED = {
               "first used, and the authentication path is RFC 8554's; verify equals the RFC algorithm for all signature "
               "strings and rejects every wrong length / type word / out-of-range index. All four parameter sets."),
         design_ref="DESIGN.md 3 C16; engines/kani/NOTES_C16.md",
-        note="Hash functions are deterministic stand-ins (collision resistance is outside); Winternitz chain lengths fixed by Q=00..00 / FF..FF; symbolic current_leaf harness in the thorough tier.",
+        note="Hash functions are deterministic stand-ins (collision resistance is outside); Winternitz chain lengths fixed by Q=00..00 / FF..FF; symbolic current_leaf harness in the thorough tier. Beyond the harness bounds (long messages, every digit value, all leaves, exhaustion) a native sign -> verify corpus is replayed and reported as ground facts, not solver coverage.",
     ),
     "C17": dict(
         engine="llsym",
